@@ -382,7 +382,35 @@ def summary_total(V):
     return [("the summary is printed", "CPU operators" in buf.getvalue())]  # (the per-operator lines go to stdout, not to `f`)
 
 
-FUNCS = {"summary_total": summary_total, "writer_total": writer_total, "purpose_total": purpose_total, "t_quant_scales": t_quant_scales, "main_config": main_config, "t_c16": t_c16, "snapshot_dtype": snapshot_dtype, "buffering_arith": buffering_arith, "t_resize": t_resize, "t_strides": t_strides, "t_broadcast": t_broadcast,
+def custom_options_total(V):
+    """a third-party CUSTOM operator passes through unchanged whatever its options are: the REAL CustomOptionsSerializer.deserialize on a stand-in
+    flatbuffer operator whose custom options are absent (the generated accessor then returns 0) or hold 0..3 bytes (symbolic choices), followed by
+    the REAL serialize: no internal exception, and the bytes written are the bytes read."""
+    import numpy as np
+    import flatbuffers
+    import ethosu.vela.tflite_mapping as tm
+
+    present = bool(V.bool("options_present"))
+    n = V.choice("length", [0, 1, 2, 3]) if present else 0
+    data = [V.choice("byte%d" % i, [0, 1, 255]) for i in range(n)]
+    op_data = _O(CustomOptionsAsNumpy=lambda: (np.array(data, dtype=np.uint8) if present else 0), CustomOptionsFormat=lambda: 0)
+    ser = tm.CustomOptionsSerializer()
+    written = []
+    saved = tm.write_byte_vector
+    tm.write_byte_vector = lambda builder, v, *a: (written.append(bytes(v)), 1)[1]
+    try:
+        attrs = ser.deserialize(op_data)
+        ser.serialize(flatbuffers.Builder(0), attrs)
+    except Exception as e:  # noqa: BLE001
+        if isinstance(e, (core.PathAbort, core.Infeasible)):
+            raise
+        return [("custom options are read and written back without an internal %s" % type(e).__name__, False)]
+    finally:
+        tm.write_byte_vector = saved
+    return [("the bytes written are the bytes read", written == [bytes(data)])]
+
+
+FUNCS = {"custom_options_total": custom_options_total, "summary_total": summary_total, "writer_total": writer_total, "purpose_total": purpose_total, "t_quant_scales": t_quant_scales, "main_config": main_config, "t_c16": t_c16, "snapshot_dtype": snapshot_dtype, "buffering_arith": buffering_arith, "t_resize": t_resize, "t_strides": t_strides, "t_broadcast": t_broadcast,
          "t_tconv": t_tconv, "main_errors": main_errors}
 
 
@@ -402,6 +430,7 @@ def instances(tier, seed):
     out.append(dict(key="constraints_total/quant_scales", fn="t_quant_scales", params={}))
     out.append(dict(key="writer_total", fn="writer_total", params={}))
     out.append(dict(key="summary_total", fn="summary_total", params={}))
+    out.append(dict(key="custom_options_total", fn="custom_options_total", params={}))
     for n in (2, 3):
         out.append(dict(key="purpose_total/%d" % n, fn="purpose_total", params=dict(nops=n)))
     from harness import c16, c18
